@@ -114,3 +114,120 @@ def run(pid, tier, seed, replay):
     if pid in semprops.GENERATORS:
         return run_sem(pid, tier, seed, replay)
     raise ToolError("no check for %s" % pid)
+
+
+# ----------------------------------------------------------------------------- front end
+import synprops  # noqa: E402
+import gen  # noqa: E402
+
+ASSUME_SYN = [
+    "character classes (alphanumeric / white space) are the ones Rust's char methods report; they are recorded by the harness",
+    "the conventions the README leaves open are fixed in the header of spec/Syntax.tla",
+]
+
+
+def report(pid, tier, seed, t0, items, verdicts, judged, stats, level_cov, assumptions, replay_payload):
+    """Common tail: map verdicts to violations, print lines, write evidence."""
+    violations, judged_n, na = [], 0, 0
+    for it in items:
+        vs = verdicts.get(it["id"])
+        if vs is None or len(vs) != len(it["kinds"]):
+            raise ToolError("no verdict for %s" % it["id"])
+        failed = [k for k, v in zip(it["kinds"], vs) if v == "F" and k in judged]
+        judged_n += sum(1 for k, v in zip(it["kinds"], vs) if v in ("T", "F") and k in judged)
+        na += sum(1 for k, v in zip(it["kinds"], vs) if v == "NA" and k in judged)
+        if failed:
+            violations.append((it, failed))
+    for it, failed in violations[:20]:
+        path = common.write_replay(pid, replay_payload(it, failed))
+        log("VIOLATION property=%s replay=%s" % (pid, path))
+        log("  judgement(s) %s failed on %s" % (failed, json.dumps({k: it[k] for k in ("text", "texts", "tree") if k in it})[:300]))
+    if judged_n == 0:
+        raise ToolError("vacuous run: no judgement applied")
+    cov = {"states": max(1, stats["distinct"]), "transitions": max(1, stats["states"]),
+           "traces_validated_against_impl": len(items), "judgements": judged_n, "judgements_not_applicable": na,
+           "tlc_runs": stats["tlc_runs"], "exhaustive": False}
+    cov.update(level_cov)
+    common.write_evidence(pid, tier, seed, "model_checking", cov, time.time() - t0, len(violations), assumptions)
+    log("%s %s: %d events, %d judgements, %d violation(s); %.1fs" % (pid, tier, len(items), judged_n, len(violations), time.time() - t0))
+    return 1 if violations else 0
+
+
+def run_syn_events(pid, tier, seed, items, judged, model="a -?? a\nb -?? a\n", module="Trace_Syn.tla", cfg="Trace_Syn.cfg",
+                   cov=None, chunk=1200):
+    """items: harness `syn` items (with id, kind, kinds)."""
+    t0 = time.time()
+    common.build()
+    d = common.workdir("%s-%s" % (pid, tier))
+    inp = os.path.join(d, "items.json")
+    with open(inp, "w") as f:
+        json.dump({"model": model, "items": items}, f)
+    outp = os.path.join(d, "events.json")
+    common.harness(["syn", inp, outp], timeout=3600)
+    doc = json.load(open(outp))
+    events = doc["events"]
+    docs = [{"net_vars": doc["net_vars"], "events": ch} for ch in common.chunks(events, chunk)]
+    verdicts, stats = common.judge_events(module, cfg, docs, d, timeout=3600)
+    byid = {e["id"]: e for e in events}
+    samples = [{k: v for k, v in byid[it["id"]].items() if k in ("text", "tree", "plain_outcome", "ext_outcome", "ext_tree", "printed", "prep_outcome", "prep_tree")}
+               for it in items[:3]]
+    lc = {"samples": samples}
+    lc.update(cov or {})
+    return report(pid, tier, seed, t0, items, verdicts, judged, stats, lc, ASSUME_SYN,
+                  lambda it, failed: {"property": pid, "failed_judgements": failed, "model": model, "items": [it], "recorded": byid[it["id"]]})
+
+
+def run_c05(tier, seed, replay):
+    rng = random.Random(seed * 7919 + 5)
+    if replay:
+        items = json.load(open(replay))["items"]
+    else:
+        texts = []
+        maxlen = 4 if tier == "thorough" else 3
+        texts += list(synprops.enumerate_token_strings(maxlen, 0))
+        if tier == "thorough":
+            texts += list(synprops.enumerate_token_strings(3, 1))
+        else:
+            texts += list(synprops.enumerate_token_strings(2, 1))
+        n_enum = len(texts)
+        texts += synprops.random_strings(rng, 20000 if tier == "thorough" else 3000)
+        items = [{"id": "s%d" % i, "kind": "parse", "kinds": ["c05"], "text": s} for i, s in enumerate(texts)]
+    return run_syn_events("C05", tier, seed, items, ["c05"],
+                          cov={"rule": "all token sequences up to a length bound over a representative alphabet, rendered to text, plus seeded random / grammar-mutated / unicode strings; each judged by TLC: tokens = Syntax.Lex, tree = Syntax.Parse, in both languages"})
+
+
+def run_c06(tier, seed, replay):
+    rng = random.Random(seed * 7919 + 6)
+    if replay:
+        items = json.load(open(replay))["items"]
+    else:
+        items = []
+        atoms = [T(), F(), P("a"), V("x"), W("w")]
+        hyb = [("bind", "x", ""), ("jump", "x", ""), ("exists", "y", "d"), ("forall", "x", "")]
+        size = 4 if tier == "thorough" else 3
+        n = 0
+        for s in range(1, size + 1):
+            for t in synprops.all_trees(s, atoms, gen.UNARY if s <= 3 else ["not", "AG"],
+                                        gen.BINARY_BOOL + gen.BINARY_TEMP if s <= 3 else ["and", "imp", "EU"], hyb):
+                items.append({"id": "t%d" % n, "kind": "build", "kinds": ["c06build"], "tree": t})
+                n += 1
+        for i in range(4000 if tier == "thorough" else 600):
+            t = synprops.random_tree(rng, rng.randint(2, 60 if i % 10 == 0 else 14))
+            items.append({"id": "r%d" % i, "kind": "build", "kinds": ["c06build"], "tree": t})
+        for i, s in enumerate(synprops.random_strings(rng, 6000 if tier == "thorough" else 1200)):
+            items.append({"id": "p%d" % i, "kind": "parse", "kinds": ["c06parse"], "text": s})
+    return run_syn_events("C06", tier, seed, items, ["c06build", "c06parse"],
+                          cov={"rule": "all trees up to a size bound and seeded random deep trees built with the public constructors; trees produced by the parsers from random strings; stored text/height judged node by node against Syntax.Render/Height, print-parse round trip judged by TLC"})
+
+
+from gen import T, F, P, V, W  # noqa: E402
+
+_sem_run = run
+
+
+def run(pid, tier, seed, replay):  # noqa: F811
+    if pid == "C05":
+        return run_c05(tier, seed, replay)
+    if pid == "C06":
+        return run_c06(tier, seed, replay)
+    return _sem_run(pid, tier, seed, replay)
